@@ -603,7 +603,7 @@ def generate(ctx, vectors):
 					'op': 'address', 'net': kind, 'id': identifier, 'pk': entry['publicKey'], 'shipped': identifier in (0x68, 0x98) and rng.random() < 0.5,
 					'expected_text': entry[f'address_{tag}'], 'others': 2})
 		# random keys x identifiers, with string and byte neighbourhoods of each derived address
-		for _ in range(ctx.scale(1000, 20000)):
+		for _ in range(ctx.scale(1000, 10000)):
 			identifier, shipped = gen_identifier(rng)
 			public_key = gen_public_key(rng)
 			cases.append({'op': 'address', 'net': kind, 'id': identifier, 'pk': public_key.hex().upper(), 'shipped': shipped, 'others': 3})
